@@ -85,8 +85,12 @@ pub fn install_panic_hook() {
     }));
 }
 
+/// `…/srcshim/src/resizer.rs:412` -> `src/resizer.rs:412`
 fn strip_repo(loc: &str) -> String {
-    loc.replace("/repo/", "")
+    match loc.find("srcshim/") {
+        Some(i) => loc[i + 8..].to_string(),
+        None => loc.replace("/repo/", ""),
+    }
 }
 
 fn guarded<R>(f: impl FnOnce() -> R) -> Result<R, Outcome> {
